@@ -268,7 +268,7 @@ MUTANTS = [
     Mutant('neutral-outer-first-forward', IT, "        imports += getattr(scope, 'imports', ())\n    return CaseInsensitiveDict(\n        (s.name, imprt)\n        for imprt in reversed(imports)",
            "        imports = getattr(scope, 'imports', ()) + imports\n    return CaseInsensitiveDict(\n        (s.name, imprt)\n        for imprt in imports", expect=None),
     Mutant('ignored-without-parents', FA, "            name, keys, use_pattern_matching=True, match_item_parents=True", "            name, keys, use_pattern_matching=True",
-           expect=('R5', '_is_ignored')),
+           count=2, expect=('R5', '_is_ignored')),
     Mutant('repair-path-key', FA, "        item_name = str(path).lower()\n", "        item_name = str(path)\n", expect=None),
     Mutant('discover-one-suffix', SC, "for path in self.paths for ext in self.source_suffixes", "for path in self.paths for ext in self.source_suffixes[:1]",
            expect=('R3', '_discover:glob')),
